@@ -193,9 +193,15 @@ claim('C22',
       'Bounded symbolic verification: crystals and mesh divisions enumerated (even/odd/mixed; cubic, hexagonal, skewed lattices), real '
       'fullkptmesh/reducekptmesh/inBZ run; the invariant periodic FUNCTION is symbolic (every coefficient of sum_s c_s sum_{R in shell} '
       'cos(k.R) a solver real): z3 decides that the reduced weighted average equals the full-mesh average for all coefficient vectors; '
-      'weights positive and summing to one, every point inside the Brillouin zone (library test and an independent one).',
-      'The mesh routines have no continuous input, so they run concretely on the enumerated cases; the universally quantified part is the '
-      'function family (10 shells). One defect found and fixed (points left outside the BZ on skewed lattices).',
+      'weights positive and summing to one, every point inside the Brillouin zone (library test and an independent one). Zone sections: '
+      'the real genBZG/inBZ run with a SYMBOLIC length scale of the lattice (solver real in [1/8, 64], five sub-ranges), forking on every '
+      'comparison; z3 decides that the zone-bounding vectors are the Voronoi-relevant reciprocal vectors (independent construction) '
+      'divided by the scale.',
+      'The mesh routines have no continuous input, so they run concretely on the enumerated cases (lattice constants 1 and 3-10, skewed '
+      'and sheared cells); the universally quantified parts are the function family (10 shells) and the length scale. Terminate '
+      'sections replay the float fullkptmesh under a time limit on meshes with points on zone faces (concrete replay, stated as such). '
+      'Three defects found and fixed (points left outside the BZ on skewed lattices; zone vectors wrong for lattice constants above '
+      '~3; non-termination of the first repair at roundoff level).',
       'DESIGN.md 3/C22')
 
 claim('C21',
